@@ -1,6 +1,6 @@
 #!/bin/bash
 # Runs every claimed check (quick tier) on the current tree and prints one line per property.
 cd /verif
-for p in $(python3 -c "import json;print(' '.join(c['id'] for c in json.load(open('MANIFEST.json'))['checks']))" 2>/dev/null || python3 -c "import json;print(' '.join(sorted(k for k,v in json.load(open('claims.json')).items() if 'text' in v)))"); do
+for p in $(python3 -c "import json;print(' '.join(c['property_id'] for c in json.load(open('MANIFEST.json'))['checks']))" 2>/dev/null || python3 -c "import json;print(' '.join(sorted(k for k,v in json.load(open('claims.json')).items() if 'text' in v)))"); do
   ./check $p 2>&1 | grep "VIOLATION\|KNOWN-FINDING\|govc:" | cut -c1-220
 done
